@@ -269,6 +269,43 @@ theorem c43_limit_src_next_calls_fresh (lim : Int) (hl : lim > 0) (xs : List Int
     simp at h3
     omega
 
+/-- Filter over a slice source, counted at the source: a `Next` that yields makes exactly as many
+source `Next` calls as elements it consumed (the skipped ones and the yielded one — see
+`c43_filter_reads_to_yield`), i.e. none beyond the yielded element; a `Next` that reports the end
+makes exactly one call more than the elements it consumed. -/
+theorem c43_filter_src_next_calls (p : Int → Bool) (l : LSt) (st : SrcSt) (hd : l.done = false) :
+    let r := next (.filter p .src) (l, st)
+    SrcSt.nexts r.1.2 + (SrcSt.rest r.1.2).length =
+      st.nexts + st.rest.length + (if r.2 then 0 else 1) := by
+  have key : ∀ (fuel : Nat) (st : SrcSt) (v : Int) r,
+      filterLoop (next .src) (val .src) p fuel st false v = some r →
+      SrcSt.nexts r.1 + (SrcSt.rest r.1).length = st.nexts + st.rest.length + (if r.2.2.2 then 0 else 1) := by
+    intro fuel
+    induction fuel with
+    | zero => intro st v r h; simp [filterLoop] at h
+    | succ fuel ih =>
+      intro st v r hr
+      simp only [filterLoop] at hr
+      cases hrest : SrcSt.rest st with
+      | nil =>
+        simp [next, hrest] at hr; subst hr; simp
+      | cons x xs =>
+        by_cases hp : p x = true
+        · simp [next, val, hrest, hp] at hr; subst hr; simp; omega
+        · have hp' : p x = false := by cases h' : p x <;> simp_all
+          simp [next, val, hrest, hp'] at hr
+          have := ih _ _ _ hr
+          simp at this ⊢
+          omega
+  cases he : filterLoop (next .src) (val .src) p (remaining .src st + 1) st l.done l.val with
+  | none => exact absurd he (filterLoop_fuel_ok p .src l st)
+  | some r =>
+    have hn := next_filter_eq p .src l st r he
+    rw [hd] at he
+    have := key _ _ _ _ he
+    rw [hn]
+    simpa using this
+
 /-! Non-vacuity: concrete, non-trivial instances (a depth-3 composition with a positive limit). -/
 example : (readAll (.limit 2 (.filter (fun x => x % 2 == 0) (.map (· + 1) .src)))
     (fresh [1, 2, 3, 4, 5, 6] _)).2 = [2, 4] := by decide
@@ -281,5 +318,6 @@ example : JIt.run 4 (JIt.fresh ([] : List Int) [some [1, 2, 3], some [4, 5], som
 
 example : (source _ (readAll (.limit 2 .src) (fresh [1, 2, 3, 4, 5] _)).1).nexts = 2 := by decide
 example : (source _ (readAll (.limit 7 .src) (fresh [1, 2, 3] _)).1).nexts = 4 := by decide
+example : (next (.filter (fun x => x % 2 == 0) .src) (({} : LSt), fresh [1, 3, 4, 5] .src)).1.2.nexts = 3 := by decide
 
 end C43
